@@ -157,6 +157,25 @@ static void do_g2l(vf_case *c) {
 	if (th) vf_fail(NULL, "%s raised", w); else expect_g2(w, X, e);
 	mpz_clear(e); g2_free(A); g2_free(B); g2_free(X);
 }
+/* g2c: index i, index j, representations (bit 0: first projective, bit 1: second projective): g2_cmp says EQ exactly when the points are equal;
+ * the identity appears as the canonical one and as the un-normalised sum [1]G2 + [-1]G2 (Z = 0, projective) */
+static void do_g2c(vf_case *c) {
+	int ii = (int)mpz_get_si(c->v[0]), jj = (int)mpz_get_si(c->v[1]), reps = (int)mpz_get_si(c->v[2]), th, v = -9; long i = LI[ii], j = LI[jj]; g2_t A, B, t; g2_null(A); g2_new(A); g2_null(B); g2_new(B); g2_null(t); g2_new(t);
+	if (i == 0 && (reps & 1)) { g2_neg(t, Q0); G2FN(add_projc)(A, Q0, t); } else mk_g2(A, i, (reps & 1) && i != 0);
+	if (j == 0 && (reps & 2)) { g2_neg(t, Q0); G2FN(add_projc)(B, Q0, t); } else mk_g2(B, j, (reps & 2) && j != 0);
+	VF_TRY(th, v = g2_cmp(A, B)); transitions++; int want = (i == j) ? RLC_EQ : RLC_NE;
+	if (th) vf_fail(NULL, "g2_cmp raised on [%ld]G2, [%ld]G2 (representations %d)", i, j, reps); else if ((v == RLC_EQ) != (want == RLC_EQ)) vf_fail(NULL, "g2_cmp([%ld]G2 %s, [%ld]G2 %s) says %s", i, (reps & 1) ? "projective" : "affine", j, (reps & 2) ? "projective" : "affine", v == RLC_EQ ? "equal" : "different");
+	g2_free(A); g2_free(B); g2_free(t);
+}
+/* g2n: index i, index j, position of the identity (0..3, 4 = none): simultaneous normalisation of an array mixing projective points, an affine point and the identity */
+static void do_g2n(vf_case *c) {
+	int ii = (int)mpz_get_si(c->v[0]), jj = (int)mpz_get_si(c->v[1]), zp = (int)mpz_get_si(c->v[2]), th; long idx[4] = {LI[ii], LI[jj], LI[(ii + jj + 1) % NLI], 6}; g2_t in[4], out[4]; mpz_t e; mpz_init(e);
+	for (int q = 0; q < 4; q++) { g2_null(in[q]); g2_new(in[q]); g2_null(out[q]); g2_new(out[q]); if (q == zp) { idx[q] = 0; g2_set_infty(in[q]); } else mk_g2(in[q], idx[q], q != 3 && idx[q] != 0); }
+	VF_TRY(th, g2_norm_sim(out, (const g2_t *)in, 4)); if (th) { vf_fail(NULL, "g2_norm_sim raised (identity at position %d)", zp); return; }
+	for (int q = 0; q < 4; q++) { char w[96]; snprintf(w, sizeof w, "g2_norm_sim, element %d = [%ld]G2 (identity at position %d)", q, idx[q], zp); mpz_set_si(e, idx[q]); transitions++; if (!g2_is_infty(out[q])) { fp_st *z = (fp_st *)out[q]->z; int one = fp_cmp_dig(z[0], 1) == RLC_EQ; for (int i = 1; i < G2D; i++) one &= fp_is_zero(z[i]); if (!one) vf_fail(NULL, "%s: z is not 1 after normalisation", w); } expect_g2(w, out[q], e); }
+	/* in place */ VF_TRY(th, g2_norm_sim(in, (const g2_t *)in, 4)); if (!th) for (int q = 0; q < 4; q++) { char w[96]; snprintf(w, sizeof w, "g2_norm_sim in place, element %d = [%ld]G2 (identity at position %d)", q, idx[q], zp); mpz_set_si(e, idx[q]); expect_g2(w, in[q], e); }
+	for (int q = 0; q < 4; q++) { g2_free(in[q]); g2_free(out[q]); } mpz_clear(e);
+}
 /* g2f: power, index, representation: the Frobenius endomorphism acts on G2 as multiplication by p: e(G1, frb^i([j]G2)) = E0^(j p^i) */
 static void do_g2f(vf_case *c) {
 	int pw = (int)mpz_get_si(c->v[0]), jj = (int)mpz_get_si(c->v[1]), proj = (int)mpz_get_si(c->v[2]), th; long j = LI[jj]; g2_t A, X; g2_null(A); g2_new(A); g2_null(X); g2_new(X); mk_g2(A, j, proj && j != 0);
@@ -213,7 +232,7 @@ static void do_val(vf_case *c) {
 static void run_case(vf_case *c) {
 	vf_nontrivial(); if (!vf_replaying) vf_stat_add("states", 1);
 	if (!strcmp(c->op, "base")) { do_base(c); return; } if (!ready) return;
-	if (!strcmp(c->op, "bil")) do_bil(c); else if (!strcmp(c->op, "sim")) do_sim(c); else if (!strcmp(c->op, "g2m")) do_g2m(c); else if (!strcmp(c->op, "g1m")) do_g1m(c); else if (!strcmp(c->op, "g2l")) do_g2l(c); else if (!strcmp(c->op, "g2f")) do_g2f(c); else if (!strcmp(c->op, "map")) do_map(c); else if (!strcmp(c->op, "gte")) do_gte(c); else if (!strcmp(c->op, "val")) do_val(c); else vf_fail(NULL, "unknown op");
+	if (!strcmp(c->op, "bil")) do_bil(c); else if (!strcmp(c->op, "sim")) do_sim(c); else if (!strcmp(c->op, "g2m")) do_g2m(c); else if (!strcmp(c->op, "g1m")) do_g1m(c); else if (!strcmp(c->op, "g2l")) do_g2l(c); else if (!strcmp(c->op, "g2f")) do_g2f(c); else if (!strcmp(c->op, "g2c")) do_g2c(c); else if (!strcmp(c->op, "g2n")) do_g2n(c); else if (!strcmp(c->op, "map")) do_map(c); else if (!strcmp(c->op, "gte")) do_gte(c); else if (!strcmp(c->op, "val")) do_val(c); else vf_fail(NULL, "unknown op");
 }
 static vf_case K;
 #define RUN2(OP, A, B) do { if (vf_mine() && !vf_expired()) { K.op = OP; K.n = 2; mpz_set_si(K.v[0], A); mpz_set_si(K.v[1], B); vf_run(&K); } } while (0)
@@ -226,6 +245,8 @@ static void enumerate(void) {
 	snprintf(bn, sizeof bn, "c11-k%d-g2-every-multiplication-routine", K_); if (vf_bound_on(bn)) { for (int rt = 0; rt < NG2R; rt++) for (int k = 0; k < NSC; k++) RUN2("g2m", rt, k); vf_bound_done(bn); }
 	snprintf(bn, sizeof bn, "c12-k%d-g1-every-multiplication-routine", K_); if (vf_bound_on(bn)) { for (int rt = 0; rt < NG1R; rt++) for (int k = 0; k < NSC; k++) RUN2("g1m", rt, k); vf_bound_done(bn); }
 	snprintf(bn, sizeof bn, "c11-k%d-g2-group-law-all-index-pairs", K_); if (vf_bound_on(bn)) { for (int f = 0; f < NLF; f++) for (int i = 0; i < NLI; i++) for (int j = 0; j < NLI; j++) { if (f >= 7 && f <= 11 && j) continue; RUN3("g2l", i, j, f); } vf_bound_done(bn); }
+	snprintf(bn, sizeof bn, "c11-k%d-g2-comparison-all-index-pairs-and-representations", K_); if (vf_bound_on(bn)) { for (int i = 0; i < NLI; i++) for (int j = 0; j < NLI; j++) for (int reps = 0; reps < 4; reps++) RUN3("g2c", i, j, reps); vf_bound_done(bn); }
+	snprintf(bn, sizeof bn, "c11-k%d-g2-simultaneous-normalisation", K_); if (vf_bound_on(bn)) { for (int i = 1; i < NLI; i += 2) for (int j = 1; j < NLI; j += 3) for (int zp = 0; zp <= 4; zp++) RUN3("g2n", i, j, zp); vf_bound_done(bn); }
 	snprintf(bn, sizeof bn, "c11-k%d-g2-frobenius-every-power-both-representations", K_); if (vf_bound_on(bn)) { for (int pw = 0; pw <= K_ + 1; pw++) for (int j = 0; j < NLI; j++) for (int pr = 0; pr < 2; pr++) { if (K_ > 24 && pw > 18 && (pw + j) % 3) continue; RUN3("g2f", pw, j, pr); } vf_bound_done(bn); }
 	snprintf(bn, sizeof bn, "c12-k%d-gt-exponentiation-forms", K_); if (vf_bound_on(bn)) { for (int rt = 0; rt < NGER; rt++) for (int k = 0; k < (rt == 7 ? K_ + 2 : NSC); k++) RUN2("gte", rt, k); vf_bound_done(bn); }
 	snprintf(bn, sizeof bn, "c12-k%d-validity-predicates", K_); if (vf_bound_on(bn)) { for (int k = 0; k < NSC; k++) RUN2("val", 0, k); for (int i = 0; i < 12; i++) RUN2("val", 1, i); vf_bound_done(bn); }
